@@ -52,7 +52,10 @@ static void ss_hash_packet(h128 *h, const struct packet *p)
 	h128_update(h, p->data, n);
 }
 
-static void ss_hash_user(h128 *h, const struct tun_user *u)
+/* stream_only: leave out what a re-delivered query may legitimately touch - the activity time stamp, the bound address and the
+ * held queries (a remembered duplicate is recorded there) - and keep everything that describes the two packet streams, the
+ * negotiated settings, the query memories and the answer cache */
+static void ss_hash_user2(h128 *h, const struct tun_user *u, int stream_only)
 {
 	h128_update(h, &u->id, 1);
 	h128_update(h, &u->active, sizeof u->active);
@@ -61,13 +64,15 @@ static void ss_hash_user(h128 *h, const struct tun_user *u)
 	h128_update(h, &u->authenticated_raw, sizeof u->authenticated_raw);
 	h128_update(h, &u->options_locked, sizeof u->options_locked);
 	h128_update(h, &u->disabled, sizeof u->disabled);
-	h128_update(h, &u->last_pkt, sizeof u->last_pkt);
 	h128_update(h, &u->seed, sizeof u->seed);
 	h128_update(h, &u->tun_ip, sizeof u->tun_ip);
-	ss_hash_addr(h, &u->host, u->hostlen);
-	ss_hash_query(h, &u->q);
-	ss_hash_query(h, &u->q_sendrealsoon);
-	h128_update(h, &u->q_sendrealsoon_new, sizeof u->q_sendrealsoon_new);
+	if (!stream_only) {
+		h128_update(h, &u->last_pkt, sizeof u->last_pkt);
+		ss_hash_addr(h, &u->host, u->hostlen);
+		ss_hash_query(h, &u->q);
+		ss_hash_query(h, &u->q_sendrealsoon);
+		h128_update(h, &u->q_sendrealsoon_new, sizeof u->q_sendrealsoon_new);
+	}
 	ss_hash_packet(h, &u->inpacket);
 	ss_hash_packet(h, &u->outpacket);
 	h128_update(h, &u->outfragresent, sizeof u->outfragresent);
@@ -90,6 +95,7 @@ static void ss_hash_user(h128 *h, const struct tun_user *u)
 		h128_update(h, &p->len, sizeof p->len);
 		h128_update(h, p->data, n);
 	}
+	if (stream_only >= 2) return;                   /* ... and the answer cache (a case-changed repeat is answered anew and cached) */
 	h128_update(h, &u->dnscache_lastfilled, sizeof u->dnscache_lastfilled);
 	for (int i = 0; i < DNSCACHE_LEN; i++) {
 		ss_hash_query(h, &u->dnscache_q[i]);
@@ -98,6 +104,8 @@ static void ss_hash_user(h128 *h, const struct tun_user *u)
 		if (n > 0 && n <= (int)sizeof u->dnscache_answer[i]) h128_update(h, u->dnscache_answer[i], n);
 	}
 }
+
+static void ss_hash_user(h128 *h, const struct tun_user *u) { ss_hash_user2(h, u, 0); }
 
 static void ss_hash_users(h128 *h, const struct tun_user *users, int n)
 {
